@@ -333,6 +333,7 @@ func (f *classFuncObject) _initFields(instance *Object) {
 		vm.stash = f.stash
 		vm.privEnv = f.privEnv
 		vm.newTarget = nil
+		vm.args = 0 // the initialiser has no arguments (enterFunc derives the frame base from vm.args)
 
 		// so that 'super' base could be correctly resolved (including from direct eval())
 		vm.push(f.val)
